@@ -373,7 +373,7 @@ PROPS['C18'] = {
 
 PROPS['C17'] = {
     'level': 'proof',
-    'level_text': 'Partial. Proved (Verus, unbounded lengths): the text codec to_base62/from_base62 is value-exact, so a body that does not start with a zero byte survives the text form; mask_with_keystream is an involution for every body length (SHA-512 as uninterpreted function) and never faults. Proved (Kani, all 2^48 triples): the age window is the cyclic distance of the hour stamps in either direction. Proved (Verus): BeaconSerializer::peerlist_decode and decrypt_data verbatim never panic for ANY alphanumeric text (what decode hands over after sanitising), any age limit, any password: the expect, the three assert!s, every slice range and subtraction are justified; get_keystream hashes the whole password. Known finding: bodies starting with 0x00 are not recovered. NOT decided: finding the markers inside arbitrary text (str::find / slicing in BeaconSerializer::decode), the field layout written by peerlist_encode, the 1-byte seed check.',
+    'level_text': 'Partial. Proved (Verus, unbounded lengths): the text codec to_base62/from_base62 is value-exact, so a body that does not start with a zero byte survives the text form; mask_with_keystream is an involution for every body length (SHA-512 as uninterpreted function) and never faults. Proved (Kani, all 2^48 triples): the age window is the cyclic distance of the hour stamps in either direction. Proved (Verus): BeaconSerializer::peerlist_decode and decrypt_data verbatim never panic for ANY alphanumeric text (what decode hands over after sanitising), any age limit, any password: the expect, the three assert!s, every slice range and subtraction are justified; get_keystream hashes the whole password. BeaconSerializer::decode verbatim: for EVERY text the marker search terminates and no string slice is out of order or out of bounds (F12 was found by this contract and repaired). Known finding: bodies starting with 0x00 are not recovered. NOT decided by contracts: that every embedded beacon is FOUND and the field layout written by peerlist_encode (the VALUE of the round trip) - searched on every run by the bounded stand-ins native/beacon_layout.rs and native/beacon_markers.rs (labelled bounded); the 1-byte seed check.',
     'verus': [{'unit': 'base62', 'fns': ['base62_add_mult_16', 'to_base62', 'from_base62', 'lemma_.*']}, {'unit': 'beacon'}],
     'kani': {
         'files': {'src/beacon.rs': ['kani/beaconblocks.rs.in']},
@@ -405,7 +405,7 @@ CLOUD_TRUSTED = [
 ]
 PROPS['C10'] = {
     'level': 'proof',
-    'level_text': 'Proof (Verus, functions verbatim, environment opaque) of the isolation frame conditions: a payload received from a peer causes no datagram to leave the node (no relaying) and at most one interface write, byte-identical to the payload; only the DATA arm of handle_message writes to the interface; datagrams from addresses that are neither peers nor in a handshake never reach the interface, and if they are not handshake messages change nothing but counters; frames read from the own interface are never written back to it; send_msg sends nothing to a non-peer and at most one datagram, to the selected peer. NOT decided: exactly-once delivery to every selected peer (broadcast loop over a HashMap), byte-identity across the AEAD.',
+    'level_text': 'Proof (Verus, functions verbatim, environment opaque) of the isolation frame conditions: a payload received from a peer causes no datagram to leave the node (no relaying) and at most one interface write, byte-identical to the payload; only the DATA arm of handle_message writes to the interface; datagrams from addresses that are neither peers nor in a handshake never reach the interface, and if they are not handshake messages change nothing but counters; frames read from the own interface are never written back to it; send_msg sends nothing to a non-peer and at most one datagram, to the selected peer. The mode table deciding whether unknown destinations are flooded and whether traffic teaches next hops is a Kani block (all mode x device combinations). NOT decided by contracts: exactly-once delivery to every selected peer (broadcast loop over a HashMap), byte-identity across the AEAD, one peer entry per node (connect_to_peers: labelled loops) - searched on every run by the bounded stand-ins native/node_isolation.rs (every mode x device type, conservation per frame) and native/connect_peers.rs (labelled bounded).',
     'verus': [{'unit': 'cloud'},
               # which peer is "selected" for a frame: the learned / claimed next hop (last writer wins, longest prefix)
               {'unit': 'table', 'fns': ['ClaimTable::cache', 'ClaimTable::lookup']}],
